@@ -55,8 +55,32 @@ pub enum DumpValue {
     ZSet(Vec<(Vec<u8>, f64)>),
     /// the skip list failed its structural invariant check
     ZSetBroken(String),
-    /// entries in stored order: ((ms, seq), sorted fields); last generated id
-    Stream { entries: Vec<((u64, u64), Vec<(Vec<u8>, Vec<u8>)>)>, last_id: (u64, u64) },
+    /// entries in stored order: ((ms, seq), sorted fields); last generated id; the lock-free
+    /// length / last-id counters kept next to the entry log; consumer groups sorted by name
+    Stream {
+        entries: Vec<((u64, u64), Vec<(Vec<u8>, Vec<u8>)>)>,
+        last_id: (u64, u64),
+        length_counter: usize,
+        last_id_counter: (u64, u64),
+        groups: Vec<GroupDump>,
+    },
+}
+
+/// One consumer group as stored.
+#[derive(Debug, Clone, PartialEq)]
+pub struct GroupDump {
+    pub name: String,
+    /// Err = the pending indexes and counters disagree with each other
+    pub state: Result<GroupState, String>,
+}
+
+#[derive(Debug, Clone, PartialEq)]
+pub struct GroupState {
+    /// (id, owner, delivery count, nanoseconds since last delivery on the realtime clock) in id order
+    pub pending: Vec<((u64, u64), String, u32, i128)>,
+    /// (consumer, pending counter), sorted by name
+    pub consumers: Vec<(String, usize)>,
+    pub last_delivered: (u64, u64),
 }
 
 /// One key of a database as stored (no lazy expiry applied).
